@@ -1,5 +1,6 @@
 import FqModel.JQValue
 import Proofs.C08
+import Proofs.C08Utf8
 import Proofs.C08Methods
 /-!
   C08 — a decode value is indistinguishable from its JSON value in read-only jq.
@@ -20,9 +21,9 @@ import Proofs.C08Methods
     (D4) raw bits keep bytes that are not valid UTF-8 under tovalue              — hypotheses RawOK / RawOKDeep
   and except the recorded, undocumented deviations of the code (known_findings.json), each pinned
   here by a witness: string-index-out-of-range, object-key-jqvalue, gojq-minint-length.
-  Hypotheses: NamesDistinct (decode.D.AddChild refuses duplicate field names), Utf8OK (a string that
-  went through `[]rune` is valid UTF-8: the general case needs the UTF-8 round-trip lemma
-  `decodeRunes (encodeRunes rs) = rs.map fix`, not proved — the theorems that need it say so).
+  Hypotheses: NamesDistinct (decode.D.AddChild refuses duplicate field names). Strings are arbitrary
+  byte strings: Go's `[]rune` / `string(runes)` round trip is proved (Proofs/C08Utf8.lean:
+  `decode1_encodeRune`, `chunks_encodeRunes`), no validity assumption.
   Query level (stretch): only `indistinguishable_partial` is proved; the full
   `∀ q v, DocOK q → eval q (wrap v) ≈ eval q (toValue v)` by induction on q is NOT proved — it is
   checked by the correspondence run (the driver evaluates the specification mode of the model, which
@@ -34,7 +35,7 @@ open FqModel FqModel.JQValue Proofs.C08
 /-! ### method level, for all decode values -/
 
 /-- `length` -/
-theorem length_agree (d : DV) (h1 : NamesDistinct d) (h2 : NotMinInt d) (h3 : Utf8OK d) :
+theorem length_agree (d : DV) (h1 : NamesDistinct d) (h2 : NotMinInt d) :
     funcLength Mode.real (.dv d) = funcLength Mode.real (Val.ofJV d.toValue) := by
   cases d with
   | struct fs =>
@@ -45,7 +46,7 @@ theorem length_agree (d : DV) (h1 : NamesDistinct d) (h2 : NotMinInt d) (h3 : Ut
     simp [funcLength, Mode.view, Mode.real, DV.mLength, DV.toValue, Val.ofJV, ofJVs_length, toValueList_length]
   | scalar k sym y =>
     rw [toValue_scalar]
-    exact length_sv (scalarValue k sym) y h2 h3
+    exact length_sv (scalarValue k sym) y h2
 
 /-- the repaired defect §1.8 #5: the length of a decoded negative number is its absolute value
     (before the fix `gojqx.Number.JQValueLength` returned the number itself: -5) -/
@@ -55,10 +56,11 @@ theorem length_negative_fixed :
   constructor <;> rfl
 
 /-- known finding gojq-minint-length: H2 of `length_agree` cannot be dropped — the decoded -2^63 has
-    length 2^63, its tovalue (a Go int) has "length" -2^63 in gojq's plain arithmetic -/
+    length 2^63 (big.Int Abs), while the specification — its tovalue is the Go int -2^63, whose `-v`
+    overflows in gojq's funcLength — says -2^63 -/
 theorem length_minint_witness :
     funcLength Mode.real (.dv (.scalar (.sint minInt) none false)) = .ok (.int 9223372036854775808) ∧
-    funcLength Mode.real (Val.ofJV (DV.toValue (.scalar (.sint minInt) none false))) = .ok (.int minInt) := by
+    funcLength Mode.spec (.dv (.scalar (.sint minInt) none false)) = .ok (.int minInt) := by
   constructor <;> rfl
 
 /-- `type` -/
@@ -144,14 +146,14 @@ theorem key_agree_nonunderscore (d : DV) (k : Bytes) (hk : isExtKey k = false) (
     exact key_sv (scalarValue kk sym) y k hk
 
 /-- `.[i]`: equal results; for a string value only for an index inside the string -/
-theorem index_agree (d : DV) (i : Int) (hu : Utf8OK d) (hr : ∀ s, d.toValue = .str s → InRange s i) :
+theorem index_agree (d : DV) (i : Int) (hr : ∀ s, d.toValue = .str s → InRange s i) :
     agree (indexInt Mode.real (.dv d) i) (indexInt Mode.real (Val.ofJV d.toValue) i) := by
   cases d with
   | struct fs => simp [indexInt, Mode.view, Mode.real, DV.mSliceLen, DV.mIndex, DV.toValue, Val.ofJV, agree]
   | array es => exact index_array es i
   | scalar k sym y =>
     rw [toValue_scalar] at hr ⊢
-    exact index_sv (scalarValue k sym) y i hu hr
+    exact index_sv (scalarValue k sym) y i hr
 
 /-- known finding string-index-out-of-range: `hr` of `index_agree` cannot be dropped — an index
     outside a decoded string gives "" (gojqx.String.JQValueIndex, types.go:360), outside the plain
@@ -161,19 +163,15 @@ theorem index_string_oob_witness :
     indexInt Mode.real (Val.ofJV (DV.toValue (.scalar (.str [97, 98, 99]) none false))) 5 = .ok .null := by
   constructor <;> rfl
 
-/-- `.[a:b]` on every value that is not a string.
-    MISSING for the full statement: string values (needs, per rune chunk c of the string,
-    `encodeRune (decode1 c).1 = c` for valid chunks — the UTF-8 round trip); strings are covered by
-    the correspondence run only. -/
-theorem slice_agree_partial (d : DV) (s e : Option Int) (hs : ¬ IsStr d.toValue) :
+/-- `.[a:b]` (arrays and strings; RawOK: (D4) does not apply to this value) -/
+theorem slice_agree (d : DV) (s e : Option Int) (hr : RawOK d) :
     agree (funcSlice Mode.real (.dv d) s e) (funcSlice Mode.real (Val.ofJV d.toValue) s e) := by
   cases d with
   | struct fs => simp [funcSlice, Mode.view, Mode.real, DV.mSliceLen, DV.mSlice, DV.toValue, Val.ofJV, agree]
   | array es => exact slice_array es s e
   | scalar k sym y =>
-    rw [toValue_scalar] at hs ⊢
-    rw [funcSlice_scalar]
-    exact slice_sv (scalarValue k sym) y s e hs
+    rw [toValue_scalar, funcSlice_scalar]
+    exact slice_sv (scalarValue k sym) y s e hr
 
 /-- `.[]`: the same (key, value) pairs — in the same order, except that a struct visits its fields
     in input order (D1) and its plain value in sorted order (a permutation) -/
@@ -234,7 +232,6 @@ theorem tostring_agree (ff : UInt64 → Option Bytes) (d : DV) (h : RawOKDeep d)
     have hg := goJQ_scalar k sym y h
     simp only [DV.goJQ] at hg
     rw [shallowM_scalar, hg, hj]
-    cases DV.toValue (.scalar k sym y) <;> simp only [Val.ofJV]
 
 /-- JQValueToString (used by gojq only for `{(k): v}` keys, execute.go:64) agrees for string values.
     MISSING for the full statement: non-string values — FALSE of the code, see `object_key_witness`. -/
@@ -274,7 +271,7 @@ theorem object_key_witness :
     (`indistinguishable`), which needs a logical relation between evaluation values that contain
     decode values and plain values; that statement is checked by the correspondence run. -/
 theorem indistinguishable_partial (ff : UInt64 → Option Bytes) (d : DV) (q : Q)
-    (h1 : NamesDistinct d) (h2 : NotMinInt d) (h3 : Utf8OK d) (h4 : RawOKDeep d) (h5 : RawOK d) :
+    (h1 : NamesDistinct d) (h2 : NotMinInt d) (h4 : RawOKDeep d) (h5 : RawOK d) :
     (Q.pipe .type q).eval Mode.real ff (wrap d) = (Q.pipe .type q).eval Mode.real ff (Val.ofJV d.toValue) ∧
     (Q.pipe .length q).eval Mode.real ff (wrap d) = (Q.pipe .length q).eval Mode.real ff (Val.ofJV d.toValue) ∧
     (Q.pipe .tonumber q).eval Mode.real ff (wrap d) = (Q.pipe .tonumber q).eval Mode.real ff (Val.ofJV d.toValue) ∧
@@ -282,7 +279,7 @@ theorem indistinguishable_partial (ff : UInt64 → Option Bytes) (d : DV) (q : Q
     (Q.pipe .tostring q).eval Mode.real ff (wrap d) = (Q.pipe .tostring q).eval Mode.real ff (Val.ofJV d.toValue) := by
   refine ⟨?_, ?_, ?_, ?_, ?_⟩
   · simp only [Q.eval, wrap, type_agree d]
-  · simp only [Q.eval, wrap, length_agree d h1 h2 h3]
+  · simp only [Q.eval, wrap, length_agree d h1 h2]
   · simp only [Q.eval, wrap, tonumber_agree d h5]
   · simp only [Q.eval, wrap, tojson_agree ff d h4]
   · simp only [Q.eval, wrap, tostring_agree ff d h4]
@@ -293,8 +290,8 @@ theorem indistinguishable_partial (ff : UInt64 → Option Bytes) (d : DV) (q : Q
 example :
     let d : DV := .struct [([98], .scalar (.uint 7) (some (.str [120])) false),
       ([97], .array [.scalar (.sint (-3)) none false, .scalar (.raw [65, 66]) none false])]
-    NamesDistinct d ∧ NotMinInt d ∧ Utf8OK d ∧ RawOK d ∧ RawOKDeep d := by
-  refine ⟨?_, trivial, trivial, trivial, ?_⟩
+    NamesDistinct d ∧ NotMinInt d ∧ RawOK d ∧ RawOKDeep d := by
+  refine ⟨?_, trivial, trivial, ?_⟩
   · simp only [NamesDistinct]; decide
   · simp only [RawOKDeep, RawOKFields, RawOKList, svRawOK, scalarValue, actualSV, and_true, true_and]
     decide
@@ -309,6 +306,8 @@ example : InRange [97, 98, 99] 1 ∧ InRange [97, 98, 99] (-3) := by
   simp only [InRange]
   decide
 
-example : ¬ IsStr (DV.toValue (.array [])) := by simp [DV.toValue, IsStr]
+/-- a string that is not valid UTF-8 is within the scope of the theorems (no validity hypothesis) -/
+example : NotMinInt (.scalar (.str [0xff, 0x61]) none true) ∧ RawOK (.scalar (.str [0xff, 0x61]) none true) :=
+  ⟨trivial, trivial⟩
 
 end Props.C08
